@@ -589,11 +589,12 @@ func (cl *cluster) apply(ev string) {
 		for _, b := range before.Backends {
 			cl.startCleaner(nodeOf(b.Address))
 		}
-	case "Tick", "TickF", "TickK":
+	case "Tick", "TickF", "TickK", "TickS":
 		i := atoi(f[1])
 		cl.nTicks++
-		cl.killFold = f[0] == "TickK" // the sfold child of this iteration dies from a signal
-		if f[0] == "TickF" || f[0] == "TickK" {
+		cl.killFold = f[0] == "TickK"  // the sfold child of this iteration dies from a signal
+		cl.failSpawn = f[0] == "TickS" // the sfold child of this iteration cannot be started at all
+		if f[0] == "TickF" || f[0] == "TickK" || f[0] == "TickS" {
 			cl.nFaults++
 		}
 		rn := cl.nodes[i].(*RealNode)
@@ -609,7 +610,7 @@ func (cl *cluster) apply(ev string) {
 		}
 		dataBefore := rn.View().Data
 		cl.tick(i, f[0] == "TickF")
-		cl.killFold = false
+		cl.killFold, cl.failSpawn = false, false
 		var chainAfter []string
 		if rep := rn.srv.Replica(); rep != nil {
 			chainAfter, _ = rep.Chain()
